@@ -121,14 +121,14 @@ func gcmGrid(x *mon.Ctx) {
 	i := 0
 	std := gcmSpec("lib", 12, 16)
 	// A: every plaintext length through the 128/64/16/tail phases, aad cycling
-	for n := 0; n <= 420; n++ {
+	for n := 0; n <= x.Scale(420, 2200); n++ { // thorough: every residue after 0..17 iterations of the 128-byte loop
 		for r := 0; r < reps; r++ {
 			one(x, ar, "pt-sweep", std, n, aadCycle[i%len(aadCycle)], i)
 			i++
 		}
 	}
 	// B: every associated-data length, plaintext cycling
-	for al := 0; al <= 300; al++ {
+	for al := 0; al <= x.Scale(300, 1300); al++ {
 		for r := 0; r < (reps+1)/2; r++ {
 			one(x, ar, "aad-sweep", std, ptCycle[i%len(ptCycle)], al, i)
 			i++
